@@ -217,6 +217,8 @@ def parse_numbers(numbers, is_date=False):
             # arange does not include the end point:
             end = to_float(colonList[-1]) + stepSign * 0.0001
             if is_date:
+                if step != int(step):
+                    verif.util.error("Could not parse '%s': Date step must be a whole number of days." % (numbers))
                 if step > 0:
                     date, last = min(start, end), max(start, end)
                 else:
